@@ -193,6 +193,17 @@ def cexpr(n, env):
       return cdot(n, f.value, n.args[0], env)
     if np_call(n, 'dot') and len(n.args) == 2 and not n.keywords:
       return cdot(n, n.args[0], n.args[1], env)
+    if np_call(n, 'atleast_2d') and len(n.args) == 1 and not n.keywords:
+      ty, tm = cexpr(n.args[0], env)
+      if ty == 'M':
+        return (ty, tm)
+      raise Untranslatable(n, "np.atleast_2d on type " + ty)
+    if isinstance(f, ast.Name) and f.id in getattr(env, 'oracles', {}) and len(n.args) == 1 and not n.keywords:
+      ty, tm = cexpr(n.args[0], env)
+      key = (f.id, tm)
+      if key not in env.oracles[f.id]:
+        raise Untranslatable(n, "oracle call on an unexpected argument")
+      return env.oracles[f.id][key]
     if np_call(n, 'matmul') and len(n.args) == 2 and not n.keywords:
       return cdot(n, n.args[0], n.args[1], env)
     if np_call(n, 'squeeze') and len(n.args) == 1 and len(n.keywords) == 1 and n.keywords[0].arg == 'axis' \
@@ -263,6 +274,8 @@ def cdot(n, a, b, env):
   (at, atm), (bt, btm) = cexpr(a, env), cexpr(b, env)
   if (at, bt) == ('MT', 'M'):
     return ('M', "(nn_dot_tm %s %s)" % (atm, btm))          # A.T.dot(B)
+  if (at, bt) == ('M', 'MT'):
+    return ('M', "(nn_dot_mt %s %s)" % (atm, btm))          # A.dot(B.T)
   g = {('V', 'V'): ('S', 'nn_dot_vv'), ('M', 'V'): ('V', 'nn_dot_mv'),
        ('V', 'M'): ('V', 'nn_dot_vm'), ('M', 'M'): ('M', 'nn_dot_mm')}.get((at, bt))
   if g is None:
